@@ -11,9 +11,28 @@ CLAIMED = {
         "the solver shows no assertion (support, NaN, infinity, Rust panic) can fail within the stated word budget, or returns a concrete stream that is replayed natively. "
         "Rare-word events (draw == 0, 1, max) are ordinary solver values, which is what sampling cannot reach.",
    design="§7 C03", technique="Kani/CBMC bounded model checking of the real samplers over symbolic parameters and RNG words; libm by contract stubs; native replay of counterexamples"),
+ "C04": dict(
+   text="Per constructor, all argument bit patterns (NaN payloads, +-0, subnormals, +-inf, integer extremes) are symbolic; the solver proves Ok <=> no documented error condition holds, "
+        "the returned variant's documented condition is true, accessors return the arguments, and no panic is reachable. Documentation-silent regions are assumed away and listed per harness.",
+   design="§7 C04", technique="Kani/CBMC bounded model checking of the real constructors against documented-domain predicates over all argument bit patterns"),
+ "C06": dict(
+   text="Tables: every ziggurat equation (monotonicity, end points, density to 1e-14 via exp in QF_NRAT, equal areas and base strip + tail to 1e-8) is an SMT query over the constants parsed from the current tree, exhaustive over 4x257 entries (cvc5, cross-checked with z3 where polynomial). "
+        "Algorithm: the real utils::ziggurat + StandardNormal/Exp1 closures are model-checked per path (rectangle / wedge / tail) over all words: layer index, rectangle bounds, tail beyond R with the sign of the uniform, word counts.",
+   design="§7 C06", technique="SMT (cvc5 QF_NRAT / z3) over the table constants, exhaustive; Kani/CBMC bounded model checking of the ziggurat algorithm per path"),
+ "C09": dict(
+   text="One inductive step from an arbitrary valid state (subtotal heap of an arbitrary weight list, built directly) through the real new/push/pop/update, with all weights and the index symbolic: "
+        "post-state equals the subtotal heap of the updated list field-wise (and == new(list) through the real PartialEq), accessors agree, errors are exactly InvalidWeight/Overflow as documented and leave the state unchanged, no panic. By induction this covers histories of any length for lengths up to the bound.",
+   design="§7 C09, §6.1", technique="Kani/CBMC bounded model checking: one inductive step of each operation from an arbitrary valid state, lengths <= 8"),
+ "C10": dict(
+   text="Arbitrary valid state, symbolic RNG words, the real try_sample including rand's random_range: the returned index must own the target (that rand draws from the same words) in the post-order interval layout, so exactly w_i of the total targets map to i; zero-weight indices own no target; errors iff total is zero; no panic.",
+   design="§7 C10", technique="Kani/CBMC bounded model checking of try_sample against an interval specification, integer weights, lengths <= 7"),
 }
-NA = {}
-for pid in ["C01","C02","C04","C05","C06","C07","C08","C09","C10","C11","C12","C13","C14","C15"]:
+NA = {
+ "C01": "probability-law statement (measure of sets of streams through ln/exp/pow/tan): not a safety assertion and not bit-blastable; see DESIGN.md §7 C01. Support/NaN (C03), ziggurat exactness (C06), affine algebra (C07) are decided elsewhere.",
+ "C13": "the property is an exhaustive enumeration of 2^24 concrete evaluations of real tanf/logf/powf plus a Kolmogorov distance: enumeration of concrete runs is outside solver-based checking; the qualitative half (all 2^24 outputs in the support, no NaN) is decided symbolically under C03.",
+ "C15": "proc-macro generated (de)serialisers through a text format: shortest-round-trip float printing/parsing has no useful unwinding bound; see DESIGN.md §7 C15.",
+}
+for pid in ["C02","C05","C07","C08","C11","C12","C14"]:
     NA[pid] = "harnesses not built yet (work in progress; see DESIGN.md §7 for the plan)"
 
 def main():
